@@ -42,7 +42,9 @@ def run_one(pid: str, tier: str, seed: int, replay: str | None, repo_path: str |
         repo = Repo(Path(repo_path) if repo_path else None)
         if repo.parse_errors:
             raise AnchorError("source files do not parse: " + "; ".join(repo.parse_errors[:3]))
-        chk = Check(pid, repo, tier, seed)
+        # evidence files describe /repo itself: a run against another tree (seeded worktree, scratch copy) writes none
+        alt = bool(repo_path) or bool(os.environ.get("VERIF_REPO"))
+        chk = Check(pid, repo, tier, seed, write=not alt)
         chk.explanation = getattr(mod, "EXPLANATION", "")
         chk.trusted = list(getattr(mod, "TRUSTED", []))
         chk.assumptions = list(getattr(mod, "ASSUMPTIONS", []))
@@ -72,10 +74,13 @@ def run_one(pid: str, tier: str, seed: int, replay: str | None, repo_path: str |
         return 2
 
 
-def run_all(tier: str, seed: int, ids: list[str]) -> int:
+def run_all(tier: str, seed: int, ids: list[str], repo_path: str | None = None) -> int:
     def one(pid: str) -> tuple[str, int, str, float]:
         t = time.time()
-        p = subprocess.run([sys.executable, "-B", "-m", "sa.cli", pid, "--tier", tier], cwd=VERIF, capture_output=True, text=True, env={**os.environ, "VERIF_SEED": str(seed)})
+        env = {**os.environ, "VERIF_SEED": str(seed)}
+        if repo_path:
+            env["VERIF_REPO"] = repo_path
+        p = subprocess.run([sys.executable, "-B", "-m", "sa.cli", pid, "--tier", tier], cwd=VERIF, capture_output=True, text=True, env=env)
         return pid, p.returncode, p.stdout + p.stderr, time.time() - t
 
     worst = 0
@@ -113,7 +118,7 @@ def main(argv: list[str] | None = None) -> int:
         return self_env()
     if a.all:
         ids = [p for p in ALL if load_prop(p) is not None]
-        return run_all(a.tier, seed, ids)
+        return run_all(a.tier, seed, ids, a.repo)
     if not a.prop:
         ap.error("property id required")
     return run_one(a.prop.upper(), a.tier, seed, a.replay, a.repo)
